@@ -29,6 +29,17 @@ Theorem C40_any_byte_rejected :
 Proof. exact session_any_byte_rejected. Qed.
 Print Assumptions C40_any_byte_rejected.
 
+(* ANY alteration confined to the 24 header bytes - any number of them, any replacement values (lowered, raised,
+   several fields at once) - of an accepted file is rejected: the checksum field must equal the CRC of the unchanged
+   payload and each version field must equal this build's value, and little-endian decoding is injective *)
+Theorem C40_header_tamper_rejected :
+  forall (obj : Type) (decompress : list Z -> res (list Z)) (unpickle : list Z -> res obj) f f',
+  bytes_ok f -> bytes_ok f' -> load_check f = Ok tt ->
+  length f' = length f -> file_blob f' = file_blob f -> f' <> f ->
+  load_session obj decompress unpickle f' = Host host_ValueError.
+Proof. intros. apply load_session_rejects, header_tamper_rejected with (f := f); assumption. Qed.
+Print Assumptions C40_header_tamper_rejected.
+
 (* what save_session writes is accepted, and every single-byte alteration of it is rejected *)
 Theorem C40_saved_file_accepted : forall blob, load_check (save_file blob) = Ok tt.
 Proof. exact saved_file_accepted. Qed.
